@@ -57,6 +57,10 @@ func genCb(r *rand.Rand) cbSpec {
 func genScenario(r *rand.Rand) scenario {
 	var sc scenario
 	npre := []int{0, 0, 1, 2, 3, 4, 5, 6, 8}[r.IntN(9)]
+	if r.IntN(10) == 0 {
+		// many pending listeners: slice-capacity / chunk boundaries 16, 32, 64, 128
+		npre = []int{15, 16, 17, 31, 32, 33, 34, 35, 47, 63, 64, 65, 66, 96, 100, 127, 128, 129, 130}[r.IntN(19)]
+	}
 	for i := 0; i < npre; i++ {
 		sc.Pre = append(sc.Pre, genCb(r))
 	}
@@ -402,6 +406,10 @@ func controlledCase(w *vrt.W, i int) {
 	if len(sc.Completers) == 0 {
 		w.Add("schedules.never_completed", 1)
 	}
+	if len(rn.cbs) >= 34 {
+		w.Add("schedules.with_34_or_more_callbacks", 1)
+	}
+	w.Max("max_callbacks_on_one_promise", int64(len(rn.cbs)))
 	if w.WantSample() && overlaps > 0 {
 		w.Sample(map[string]any{"scenario": sc, "steps": s.Steps, "switches": s.Switches, "get_cas_overlaps": overlaps, "schedule_hash": fmt.Sprintf("%x", s.Hash())})
 	}
@@ -678,13 +686,13 @@ func main() {
 				}
 			}
 		},
-		Rule: "controlled case = PRNG scenario (0..8 callbacks registered before start, 0..6 registering tasks x 1..3 callbacks via OnComplete/OnSuccess/OnFailure/Foreach on the default, an inline or a harness queue executor, 0..3 completers via Success/Failure/Complete with distinct results, 0..3 late registrations) executed under a seeded cooperative scheduler that owns every atomic Get/Load/Store/CompareAndSwap of the promise and every task of the default executor (uniform random choice at each step, or PCT with 1..3 priority change points); the oracle at quiescence checks exactly one winning completion, IsCompleted/Value, exactly-once delivery per callback subject to its filter, delivery never before completion, and that later completions lose. distinct_nontrivial counts distinct (scenario, schedule-hash) pairs in which a CompareAndSwap by one task happened while another task was between its Get and its CompareAndSwap (overlapping read-modify-write windows), plus — race batches — distinct scenarios with >=2 registering goroutines racing over pre-registered callbacks. Every 50th controlled case is a zero-value Promise/Future case. Race batches run the same scenarios 10 times each with real goroutines, PRNG-chosen Gosched at every atomic step, built with -race; any DATA RACE report whose accessing frame is in csgura/fp is a violation.",
+		Rule: "controlled case = PRNG scenario (0..8 (one case in ten: 15..130, crossing the 16/32/64/128 boundaries) callbacks registered before start, 0..6 registering tasks x 1..3 callbacks via OnComplete/OnSuccess/OnFailure/Foreach on the default, an inline or a harness queue executor, 0..3 completers via Success/Failure/Complete with distinct results, 0..3 late registrations) executed under a seeded cooperative scheduler that owns every atomic Get/Load/Store/CompareAndSwap of the promise and every task of the default executor (uniform random choice at each step, or PCT with 1..3 priority change points); the oracle at quiescence checks exactly one winning completion, IsCompleted/Value, exactly-once delivery per callback subject to its filter, delivery never before completion, and that later completions lose. distinct_nontrivial counts distinct (scenario, schedule-hash) pairs in which a CompareAndSwap by one task happened while another task was between its Get and its CompareAndSwap (overlapping read-modify-write windows), plus — race batches — distinct scenarios with >=2 registering goroutines racing over pre-registered callbacks. Every 50th controlled case is a zero-value Promise/Future case. Race batches run the same scenarios 10 times each with real goroutines, PRNG-chosen Gosched at every atomic step, built with -race; any DATA RACE report whose accessing frame is in csgura/fp is a violation.",
 		Assumptions: []string{
 			"interleavings are explored at the granularity of the atomic steps of internal/atomic.Value (hook before each step); they are sampled (uniform + PCT), not enumerated",
 			"the scheduler serialises tasks, so it explores sequentially consistent interleavings only; weak-memory effects are left to the -race batches",
 		},
 		Floors: func(tier string) map[string]int64 {
-			return map[string]int64{"schedules.with_get_cas_overlap": 500, "schedules.racing_completers": 500, "schedules.never_completed": 100, "zero_value_cases": 10, "race_mode.rounds": 100}
+			return map[string]int64{"schedules.with_get_cas_overlap": 500, "schedules.racing_completers": 500, "schedules.never_completed": 100, "schedules.with_34_or_more_callbacks": 500, "zero_value_cases": 10, "race_mode.rounds": 100}
 		},
 	})
 }
